@@ -122,3 +122,191 @@ Section QsrSource.
     - reflexivity.
   Qed.
 End QsrSource.
+
+(* plasma.CancelFuse: the fusion entry under (sender ++ id), the fused amount of its beneficiary (absent = 0) *)
+Section PlasmaSource.
+  Variable num : bytes -> Z.
+
+  Theorem cancel_fuse_is_source (e : env) (a : cacct pstore) (s : send) :
+    match cancel_fuse_validate s with
+    | VErr c =>
+        cancel_fuse_receive e a s = MErr c /\
+        (c <> 0 -> forall fa u f g exph h ge amt d1 d2 own sv,
+           CancelFuse_receive fa c u f g exph h ge amt d1 d2 own sv = Ok (nil, c, fa, None, None, None))
+    | VPanic => cancel_fuse_receive e a s = MPanic
+    | VOk id =>
+        match tget (p_fusions (a_store a)) (s_from s ++ id) with
+        | None =>
+            cancel_fuse_receive e a s = MErr E_nonexistent /\
+            forall fa exph h ge amt d1 d2 own sv,
+              CancelFuse_receive fa 0 0 0 Err_constants_ErrDataNonExistent exph h ge amt d1 d2 own sv =
+              Ok (nil, Err_constants_ErrDataNonExistent, fa, None, None, None)
+        | Some ent =>
+            let fused := match tget (p_fused (a_store a)) (f_ben ent) with Some v => v | None => 0 end in
+            let src := CancelFuse_receive fused 0 0 0 0 (f_exp ent) (e_height e) 0 (f_amount ent) 0 0 (num (s_from s)) 0 in
+            if e_height e <? f_exp ent then
+              cancel_fuse_receive e a s = MErr E_revoke_not_due /\
+              src = Ok (nil, Err_constants_RevokeNotDue, fused, None, None, None)
+            else
+              exists a',
+                cancel_fuse_receive e a s =
+                  MOk a' [{| d_to := s_from s; d_amount := f_amount ent; d_zts := ZtsQsr; d_data := [] |}] /\
+                src = Ok ([(num (s_from s), f_amount ent, QsrTokenStandard)], 0, fused - f_amount ent, Some 1,
+                          (if fused - f_amount ent =? 0 then Some 1 else None),
+                          (if fused - f_amount ent =? 0 then None else Some 1)) /\
+                tget (p_fusions (a_store a')) (s_from s ++ id) = None /\
+                tget (p_fused (a_store a')) (f_ben ent) =
+                  (if fused - f_amount ent =? 0 then None else Some (u256 (fused - f_amount ent)))
+        end
+    end.
+  Proof.
+    unfold cancel_fuse_receive.
+    destruct (cancel_fuse_validate s) as [id|c|].
+    - cbv zeta. destruct (tget (p_fusions (a_store a)) (s_from s ++ id)) as [ent|].
+      + set (fused := match tget (p_fused (a_store a)) (f_ben ent) with Some v => v | None => 0 end).
+        unfold CancelFuse_receive. cbv zeta. change (0 =? 0) with true. cbn [negb guard].
+        assert (Hne : (0 =? Err_constants_ErrDataNonExistent) = false) by reflexivity. rewrite Hne.
+        destruct (e_height e <? f_exp ent) eqn:Ed.
+        * split; reflexivity.
+        * destruct (Z.eqb_spec (fused - f_amount ent) 0) as [H0|H0].
+          -- assert ((Z.sgn (fused - f_amount ent) =? 0) = true) as -> by lia.
+             eexists. split; [reflexivity|]. split; [reflexivity|].
+             cbn [a_store with_store p_fusions p_fused]. rewrite !tget_tdel, !bytes_eqb_refl. split; reflexivity.
+          -- assert ((Z.sgn (fused - f_amount ent) =? 0) = false) as -> by lia.
+             eexists. split; [reflexivity|]. split; [reflexivity|].
+             cbn [a_store with_store p_fusions p_fused]. rewrite tget_tdel, tget_tput, !bytes_eqb_refl. split; reflexivity.
+      + split; [reflexivity|]. intros fa exph h ge amt d1 d2 own sv.
+        unfold CancelFuse_receive. cbv zeta. change (0 =? 0) with true. cbn [negb guard].
+        rewrite Z.eqb_refl. reflexivity.
+    - split; [reflexivity|]. intros Hc fa u f g exph h ge amt d1 d2 own sv.
+      unfold CancelFuse_receive. cbv zeta.
+      assert ((c =? 0) = false) as -> by lia. reflexivity.
+    - reflexivity.
+  Qed.
+End PlasmaSource.
+
+(* htlc.Reclaim / htlc.Unlock. [num]: an injective encoding of addresses as numbers (the translation compares addresses as
+   numbers); the oracle input "hashed preimage equals the hash lock" is the model's comparison under the hash function H;
+   the entry's KeyMaxSize is a uint8. *)
+Section HtlcSource.
+  Variable H : Z -> bytes -> bytes.
+  Variable num : bytes -> Z.
+  Hypothesis num_inj : forall x y, num x = num y -> x = y.
+
+  Lemma num_eqb x y : (num x =? num y) = bytes_eqb x y.
+  Proof.
+    destruct (bytes_eqb x y) eqn:E.
+    - apply bytes_eqb_eq in E. subst. apply Z.eqb_refl.
+    - apply Z.eqb_neq. intros Hn. apply num_inj in Hn. subst. rewrite bytes_eqb_refl in E. discriminate.
+  Qed.
+
+  Theorem reclaim_htlc_is_source (e : env) (a : cacct hstore) (s : send) :
+    match reclaim_validate s with
+    | VErr c =>
+        reclaim_receive e a s = MErr c /\
+        (c <> 0 -> forall u g tl sender f now exp d amt zts,
+           ReclaimHtlc_receive c u g tl sender f now exp d amt zts = Ok (nil, c, None))
+    | VPanic => reclaim_receive e a s = MPanic
+    | VOk id =>
+        match tget (h_entries (a_store a)) id with
+        | None =>
+            reclaim_receive e a s = MErr E_nonexistent /\
+            forall tl sender f now exp d amt zts,
+              ReclaimHtlc_receive 0 0 Err_constants_ErrDataNonExistent tl sender f now exp d amt zts =
+              Ok (nil, Err_constants_ErrDataNonExistent, None)
+        | Some ent =>
+            let src := ReclaimHtlc_receive 0 0 0 (num (h_timelocked ent)) (num (s_from s)) 0 (e_now e) (h_exp ent) 0
+                         (h_amount ent) (num (h_zts ent)) in
+            match reclaim_receive e a s with
+            | MOk a' ds =>
+                ds = [{| d_to := h_timelocked ent; d_amount := h_amount ent; d_zts := h_zts ent; d_data := [] |}] /\
+                src = Ok ([(num (h_timelocked ent), h_amount ent, num (h_zts ent))], 0, Some 1) /\
+                tget (h_entries (a_store a')) id = None
+            | MErr c =>
+                (c = E_permission /\ src = Ok (nil, Err_constants_ErrPermissionDenied, None)) \/
+                (c = E_reclaim_not_due /\ src = Ok (nil, Err_constants_ReclaimNotDue, None))
+            | MPanic => False
+            end
+        end
+    end.
+  Proof.
+    unfold reclaim_receive.
+    destruct (reclaim_validate s) as [id|c|].
+    - cbv zeta. destruct (tget (h_entries (a_store a)) id) as [ent|].
+      + unfold ReclaimHtlc_receive. cbv zeta. change (0 =? 0) with true. cbn [negb guard].
+        assert (Hne : (0 =? Err_constants_ErrDataNonExistent) = false) by reflexivity. rewrite Hne.
+        rewrite num_eqb.
+        destruct (bytes_eqb (h_timelocked ent) (s_from s)); cbn [negb].
+        * destruct (e_now e <? h_exp ent).
+          -- right. split; reflexivity.
+          -- split; [reflexivity|]. split; [reflexivity|].
+             cbn [a_store with_store h_entries]. rewrite tget_tdel, bytes_eqb_refl. reflexivity.
+        * left. split; reflexivity.
+      + split; [reflexivity|]. intros tl sender f now exp d amt zts.
+        unfold ReclaimHtlc_receive. cbv zeta. change (0 =? 0) with true. cbn [negb guard].
+        rewrite Z.eqb_refl. reflexivity.
+    - split; [reflexivity|]. intros Hc u g tl sender f now exp d amt zts.
+      unfold ReclaimHtlc_receive. cbv zeta. assert ((c =? 0) = false) as -> by lia. reflexivity.
+    - reflexivity.
+  Qed.
+
+  Theorem unlock_htlc_is_source (e : env) (a : cacct hstore) (s : send) :
+    match unlock_validate s with
+    | VErr c =>
+        unlock_receive H e a s = MErr c /\
+        (c <> 0 -> forall u g proxy pe sender hl f now exp plen kmax ht heq d amt zts,
+           UnlockHtlc_receive c u g proxy pe sender hl f now exp plen kmax ht heq d amt zts = Ok (nil, c, None))
+    | VPanic => unlock_receive H e a s = MPanic
+    | VOk (id, pre) =>
+        match tget (h_entries (a_store a)) id with
+        | None =>
+            unlock_receive H e a s = MErr E_nonexistent /\
+            forall proxy pe sender hl f now exp plen kmax ht heq d amt zts,
+              UnlockHtlc_receive 0 0 Err_constants_ErrDataNonExistent proxy pe sender hl f now exp plen kmax ht heq d amt zts =
+              Ok (nil, Err_constants_ErrDataNonExistent, None)
+        | Some ent =>
+            0 <= h_keymax ent < 256 ->
+            let src := UnlockHtlc_receive 0 0 0 (proxy_allowed (a_store a) (h_hashlocked ent)) 0 (num (s_from s))
+                         (num (h_hashlocked ent)) 0 (e_now e) (h_exp ent) (len pre) (h_keymax ent) (h_type ent)
+                         (bytes_eqb (H (h_type ent) pre) (h_lock ent)) 0 (h_amount ent) (num (h_zts ent)) in
+            match unlock_receive H e a s with
+            | MOk a' ds =>
+                ds = [{| d_to := h_hashlocked ent; d_amount := h_amount ent; d_zts := h_zts ent; d_data := [] |}] /\
+                src = Ok ([(num (h_hashlocked ent), h_amount ent, num (h_zts ent))], 0, Some 1) /\
+                tget (h_entries (a_store a')) id = None
+            | MErr c =>
+                (c = E_permission /\ src = Ok (nil, Err_constants_ErrPermissionDenied, None)) \/
+                (c = E_expired /\ src = Ok (nil, Err_constants_ErrExpired, None)) \/
+                (c = E_preimage /\ src = Ok (nil, Err_constants_ErrInvalidPreimage, None))
+            | MPanic => False
+            end
+        end
+    end.
+  Proof.
+    unfold unlock_receive.
+    destruct (unlock_validate s) as [[id pre]|c|].
+    - cbv zeta. destruct (tget (h_entries (a_store a)) id) as [ent|].
+      + intros Hk. unfold UnlockHtlc_receive. cbv zeta. change (0 =? 0) with true. cbn [negb guard].
+        assert (Hne : (0 =? Err_constants_ErrDataNonExistent) = false) by reflexivity. rewrite Hne.
+        rewrite num_eqb.
+        rewrite (wrapS64_small (h_keymax ent)) by (unfold two63; lia).
+        destruct (negb (proxy_allowed (a_store a) (h_hashlocked ent)) && negb (bytes_eqb (s_from s) (h_hashlocked ent))).
+        * left. split; reflexivity.
+        * destruct (h_exp ent <=? e_now e).
+          -- right. left. split; reflexivity.
+          -- destruct (h_keymax ent <? len pre).
+             ++ right. right. split; reflexivity.
+             ++ destruct (bytes_eqb (H (h_type ent) pre) (h_lock ent)); cbn [negb].
+                ** split; [reflexivity|]. split.
+                   --- destruct (h_type ent =? 0); [reflexivity|]. destruct (h_type ent =? 1); reflexivity.
+                   --- cbn [a_store with_store h_entries]. rewrite tget_tdel, bytes_eqb_refl. reflexivity.
+                ** right. right. split; [reflexivity|].
+                   destruct (h_type ent =? 0); [reflexivity|]. destruct (h_type ent =? 1); reflexivity.
+      + split; [reflexivity|]. intros proxy pe sender hl f now exp plen kmax ht heq d amt zts.
+        unfold UnlockHtlc_receive. cbv zeta. change (0 =? 0) with true. cbn [negb guard].
+        rewrite Z.eqb_refl. reflexivity.
+    - split; [reflexivity|]. intros Hc u g proxy pe sender hl f now exp plen kmax ht heq d amt zts.
+      unfold UnlockHtlc_receive. cbv zeta. assert ((c =? 0) = false) as -> by lia. reflexivity.
+    - reflexivity.
+  Qed.
+End HtlcSource.
